@@ -91,6 +91,11 @@ func (simpleHTTPSelf *SimpleHTTPDef) SetHTTPClient(client *http.Client) {
 	if client.Transport == nil {
 		client.Transport = http.DefaultTransport
 	}
+	// Moving to another client: leave the previous client's transport chain first, otherwise the
+	// instances still wired through it would end up on the new client's transport (or lose theirs)
+	if previous := simpleHTTPSelf.client; previous != nil && previous != client {
+		simpleHTTPSelf.detachFrom(previous)
+	}
 	// Avoid setting up again when this instance is already (directly or through
 	// other SimpleHTTP instances sharing the client) part of the client's transport chain
 	if !simpleHTTPSelf.isInTransportChain(client.Transport) {
@@ -104,6 +109,24 @@ func (simpleHTTPSelf *SimpleHTTPDef) SetHTTPClient(client *http.Client) {
 	}
 
 	simpleHTTPSelf.client = client
+}
+
+// detachFrom Splice this instance out of the client's chain of wrapped SimpleHTTP instances (if it is part of it)
+func (simpleHTTPSelf *SimpleHTTPDef) detachFrom(client *http.Client) {
+	if client.Transport == http.RoundTripper(simpleHTTPSelf) {
+		client.Transport = simpleHTTPSelf.clientTransport
+		return
+	}
+	visited := map[*SimpleHTTPDef]bool{}
+	wrapper, ok := client.Transport.(*SimpleHTTPDef)
+	for ok && wrapper != nil && !visited[wrapper] {
+		visited[wrapper] = true
+		if wrapper.clientTransport == http.RoundTripper(simpleHTTPSelf) {
+			wrapper.clientTransport = simpleHTTPSelf.clientTransport
+			return
+		}
+		wrapper, ok = wrapper.clientTransport.(*SimpleHTTPDef)
+	}
 }
 
 // isInTransportChain Check whether this instance is reachable from the given transport through wrapped SimpleHTTP instances
